@@ -637,6 +637,22 @@ class Engine:
 
     def op_plant(self, s):
         kind = s["kind"]
+        if kind in ("link", "mlink"):
+            # an unreferenced ALIAS (relative symlink) of a live data file / manifest inside the table: the alias is an orphan and may
+            # go, what it points to is reachable and must stay
+            live = sorted(self.cur_files()) if kind == "link" else sorted(f for f in self.fs.list("metadata/manifests") if "/manifest_" in f and "manifest_list" not in f)
+            if not live:
+                return
+            target = live[self.step_no % len(live)].lstrip("/")
+            name = ("data/alias_%d.parquet" if kind == "link" else "metadata/manifests/alias_%d.avro") % self.step_no
+            p = os.path.join(self.root, name)
+            if not os.path.exists(os.path.join(self.root, target)) or os.path.lexists(p):
+                return
+            os.symlink(os.path.relpath(os.path.join(self.root, target), os.path.dirname(p)), p)
+            t = time.time() - s.get("age_s", 0)
+            os.utime(p, (t, t), follow_symlinks=False)
+            self.labels["planted-alias-of-live-file"] += 1
+            return
         name = {"data": f"data/orphan_{self.step_no}.parquet", "manifest": f"metadata/manifests/manifest_orphan_{self.step_no}.avro",
                 "tmp": f"data/.tmp.left_{self.step_no}.parquet", "mlist": f"metadata/manifests/manifest_list_9_{self.step_no}_dead.avro"}[kind]
         p = os.path.join(self.root, name)
@@ -773,7 +789,7 @@ def step_strategy(gc=True, clock_ticks="forward", props_ops=True, open_txn=True)
         ss.append((3, st.builds(lambda g: {"op": "gc", "grace_ms": g}, st.sampled_from([0, 3600000, 36000000]))))
         ss.append((2, st.builds(lambda s_: {"op": "age", "s": s_}, st.sampled_from([7200, 90000, 100]))))
         ss.append((1, st.builds(lambda n: {"op": "append_markers_left", "n": n}, st.integers(1, 2))))
-        ss.append((2, st.builds(lambda k, a: {"op": "plant", "kind": k, "age_s": a}, st.sampled_from(["data", "manifest", "tmp", "mlist"]), st.sampled_from([0, 7200, 90000]))))
+        ss.append((2, st.builds(lambda k, a: {"op": "plant", "kind": k, "age_s": a}, st.sampled_from(["data", "manifest", "tmp", "mlist", "link", "mlink"]), st.sampled_from([0, 7200, 90000]))))
     if open_txn:
         ss.append((1, st.builds(lambda n, a: {"op": "open_txn", "n": n, "age_s": a}, st.integers(1, 2), st.sampled_from([0, 7200]))))
         ss.append((1, st.builds(lambda i: {"op": "commit_open", "i": i}, st.integers(0, 2))))
@@ -796,7 +812,8 @@ def _macros(gc=True, back=False):
         [{"op": "append", "n": 1}, {"op": "txn", "appends": [1, 1], "delete": [0], "expire": ("future", 0)}] + tail,
         [{"op": "append", "n": 1}, {"op": "reappend_file", "pick": 0}, {"op": "append", "n": 1}, {"op": "delete_files", "pick": [0], "slash": False, "ghost": False}] + tail,
         [{"op": "append_twins"}, {"op": "append", "n": 1}, {"op": "delete_files", "pick": [0], "slash": True, "ghost": False}] + tail,
-    ] + ([[{"op": "append_markers_left", "n": 1}, {"op": "append", "n": 1}, {"op": "age", "s": 90000}, {"op": "gc", "grace_ms": 3600000}, {"op": "append", "n": 1}]] if gc else [])
+    ] + ([[{"op": "append_markers_left", "n": 1}, {"op": "append", "n": 1}, {"op": "age", "s": 90000}, {"op": "gc", "grace_ms": 3600000}, {"op": "append", "n": 1}],
+          [{"op": "append", "n": 1}, {"op": "plant", "kind": "link", "age_s": 7200}, {"op": "plant", "kind": "mlink", "age_s": 7200}, {"op": "age", "s": 7200}, {"op": "gc", "grace_ms": 3600000}]] if gc else [])
       + ([
           # retention trimming while the wall clock stepped back between commits (timestamp order != commit order), then the current snapshot goes
           [{"op": "set_prop", "key": RETENTION, "value": "3"}, {"op": "append", "n": 1}, {"op": "tick", "ms": 50}, {"op": "append", "n": 1}, {"op": "tick", "ms": -120},
